@@ -216,6 +216,23 @@ PROPS["C14"] = {
     "level_note": "Ids >= 0, single-line texts, one writer file per process. Attribute reads of the two shared counters are atomic snapshots. "
                   "__iter__ (generator holding the lock across yields) and open/close are covered by the bounded layer only.",
 }
+PROPS["C05"] = {
+    "units": ["contracts.c05_functormap", "contracts.c15_buffers"],
+    "bounded": True,
+    "level": "other",
+    "trusted_base": ["pyvc VC generator (/verif/pyvc)", "z3", "Python semantics as listed in DESIGN.md §2.3",
+                     "demonic queue environment (DESIGN §5.1): queues deliver every item exactly once, in any order, at any time",
+                     "Buffer contracts (proved in C15)"],
+    "explanation": "Deductive (unbounded, for EVERY arrival order / timing / worker count): FunctorMap.__call__ - all seven loops carry invariants "
+                   "over the ghost channel (sent / received indices) and the reorder Buffer; the index attached to each work item is the next "
+                   "one (pre@put), each blocking get is entered only while a sent item is unreceived (owed@get), the output is exactly "
+                   "[f(x) for x in data] in input order, and at exit nothing is in flight (repeated calls independent); the nested chunking "
+                   "generator cuts the input into consecutive non-empty chunks. Bounded only: mul_p_map (class-level queues, process list "
+                   "comprehension), FunctorWorker.run / FunRunner.run loop bodies, __enter__/__exit__ (sentinels, joins), real-process runs.",
+    "level_text": "Proof of the consumer/producer loop of FunctorMap under the demonic queue environment; bounded real-process runs for the rest.",
+    "level_note": "Liveness proper is not claimed: owed@get is the safety surrogate (never blocked on a result that will not come), worker "
+                  "progress is an assumption.",
+}
 
 # properties not claimed, with the reason (everything else not in PROPS gets the generic "not built yet" reason)
 NOT_APPLICABLE = {}
